@@ -1,11 +1,12 @@
 (* GenCorr.v — correspondence of GenerateRandomExpr under a scripted random source (C20). *)
-Require Import Base Opcode Tables Ops Tree Gen TestEnv.
+Require Import Base Opcode Tables Ops Tree Print Gen GenText TestEnv.
 Open Scope Z_scope.
 Open Scope list_scope.
 
 Record gcase := {
   gc_cfg : gencfg; gc_bool : bool; gc_level : nat; gc_stream : list Z;
   gc_tree : tree;          (* Go's Expr, parsed (variable keys zeroed) *)
+  gc_text : str;           (* Go's Expr, the text itself *)
   gc_res : value           (* Go's reported Res *)
 }.
 
@@ -20,6 +21,7 @@ Fixpoint zero_keys (t : tree) : tree :=
 Definition chk_gen (c : gcase) : list N :=
   let r := generate (gc_cfg c) (gc_bool c) (gc_level c) (gc_stream c) in
   (if tree_eqb (fst r) (zero_keys (gc_tree c)) then [] else [21%N]) ++
-  (if value_eqb (snd r) (gc_res c) then [] else [22%N]).
+  (if value_eqb (snd r) (gc_res c) then [] else [22%N]) ++
+  (if str_eqb (gtext (fst r)) (gc_text c) then [] else [23%N]).
 
 Definition diag_gen (c : gcase) := generate (gc_cfg c) (gc_bool c) (gc_level c) (gc_stream c).
